@@ -181,6 +181,12 @@ func execC20(seg []Ev) []Ev {
 				} else if toStr(in["type"]) == "Double" {
 					f, _ := strconv.ParseFloat(toStr(in["payload"]), 64)
 					v.SetAsDouble(f)
+				} else if toStr(in["type"]) == "Float" {
+					f, _ := strconv.ParseFloat(toStr(in["payload"]), 32)
+					v.SetAsFloat(float32(f))
+				} else if toStr(in["type"]) == "Long" {
+					n, _ := strconv.ParseInt(toStr(in["payload"]), 10, 64)
+					v.SetAsLong(n)
 				} else {
 					v.SetAsString(toStr(in["payload"]))
 				}
@@ -577,6 +583,19 @@ func genC20(g *Gen) {
 			}
 		}
 	}
+	// a value set over an equal-looking one with the typed setter: the two zeros, the same number in another type
+	for _, ty := range []string{"Double", "Float"} {
+		for _, pr := range [][]string{{"0", "-0", "0", "-0"}, {"-0", "0"}, {"1.5", "1.5", "-0", "-0", "0"}} {
+			seg := []Ev{{"op": "new"}}
+			for _, pl := range pr {
+				seg = append(seg, Ev{"op": "setscalar", "v": 1, "type": ty, "payload": pl}, Ev{"op": "copy", "w": 2, "v": 1, "how": "Clone"})
+			}
+			g.Run("a value set over an equal-looking one", seg)
+		}
+	}
+	g.Run("a value set over an equal-looking one", []Ev{{"op": "new"}, {"op": "setscalar", "v": 1, "type": "Integer", "payload": "7"}, {"op": "setscalar", "v": 1, "type": "Long", "payload": "7"},
+		{"op": "setscalar", "v": 1, "type": "Double", "payload": "7"}, {"op": "setscalar", "v": 1, "type": "Float", "payload": "7"}, {"op": "setscalar", "v": 1, "type": "Integer", "payload": "7"},
+		{"op": "setscalar", "v": 1, "type": "String", "payload": "7"}})
 	// the variant's own list handed back to it, then changed by the caller
 	for _, how := range []string{"SetAsObject", "SetAsArray"} {
 		for _, fh := range []string{"SetAsArray", "NewVariant"} {
